@@ -31,7 +31,7 @@ class CfProp(PropBase):
         g = {"nodes": sorted(g["nodes"]), "dir": g["dir"], "bid": g["bid"]}
         return g
 
-    def truth_check(self, g, event, est, what):
+    def truth_check(self, g, event, est, what, env_subscripts=frozenset()):
         """est (ID*/IDC* output) against the probability of the event in a random functional SCM, for every base assignment."""
         pol = GEV.consistent_polarity(event)
         if pol is None:
@@ -47,7 +47,7 @@ class CfProp(PropBase):
                 if st:
                     env[b] = 1 - rho[b]
             try:
-                got = CTF.ev_ctf(est, env, rho, m, node_of)
+                got = CTF.ev_ctf(est, env, rho, m, node_of, frozenset(env_subscripts))
             except CTF.Unsupported:
                 return None, "unsupported"
             except ZeroDivisionError:
